@@ -282,7 +282,10 @@ impl<'a> ser::Serializer for &'a mut SizeSerializer {
     }
 
     fn serialize_none(self) -> Result<Self::Ok, Self::Error> {
-        Ok(1)
+        match self.is_array_element {
+            IsArrayElement::False | IsArrayElement::FirstElement => Ok(1),
+            IsArrayElement::OtherElement => Ok(0),
+        }
     }
 
     fn serialize_some<T>(self, value: &T) -> Result<Self::Ok, Self::Error>
@@ -293,7 +296,10 @@ impl<'a> ser::Serializer for &'a mut SizeSerializer {
     }
 
     fn serialize_unit(self) -> Result<Self::Ok, Self::Error> {
-        Ok(1)
+        match self.is_array_element {
+            IsArrayElement::False | IsArrayElement::FirstElement => Ok(1),
+            IsArrayElement::OtherElement => Ok(0),
+        }
     }
 
     fn serialize_unit_struct(self, _name: &'static str) -> Result<Self::Ok, Self::Error> {
